@@ -19,6 +19,22 @@ func c14CrcUpdate(crc *Term, poly uint64, data []value) *Term {
 	one := mkConst(64, 1)
 	zero := mkConst(64, 0)
 	pt := mkConst(64, poly)
+	// all-concrete input (large concrete payloads): the real table-driven implementation
+	if crc.IsConst() {
+		conc := make([]byte, len(data))
+		all := true
+		for i, b := range data {
+			c, ok := b.(uint8)
+			if !ok {
+				all = false
+				break
+			}
+			conc[i] = c
+		}
+		if all {
+			return mkConst(64, crc64.Update(crc.ConstVal(), crc64.MakeTable(poly), conc))
+		}
+	}
 	crc = mk(OpBvNot, 64, 0, crc)
 	for _, b := range data {
 		bt, _, ok := scalarTerm(b)
